@@ -619,6 +619,43 @@ def c15(rep, tier):
     asg = [e for e in walk_all_exprs(comp['body']) if (e.get('k') == 'call' and (e.get('callee') or '').endswith('::operator=') and field_chain(e['obj'])[1][-1:] == ['file_requests'])]
     okc = len(asg) == 1 and 'missing_files' in show(asg[0]['args'][0])
     I5.check(okr and okc, 'compile: requests returned', 'result.file_requests = parse().missing_files', 'file requests are not handed to the caller', 'Compiler/src/compiler.cpp:%d' % comp['loc'][1])
+    I7 = rep.rule('C15.I7', 'parse() starts scanning at the main key exactly as given: the key is handed to scan() unchanged and is never '
+                            'embedded in scanned text (a quoted name cannot carry every key)', floor=2)
+    mainp = [p_ for p_ in parse['params'] if p_['name'] == 'main' or 'FileName' in (p_.get('ty') or '')]
+    mainp = [p_ for p_ in parse['params'] if p_['name'] == 'main'] or mainp[-1:]
+    scalls = [ev for ev in gparse.calls() if ev.e.get('callee') == 'Theo::scan']
+    if len(scalls) != 1 or not mainp:
+        I7.unknown('parse: scan call', '%d call(s) of scan() in parse()' % len(scalls))
+    else:
+        md = mainp[0]['d']
+        a1 = strip_casts(strip_copies(scalls[0].e['args'][1]))
+        direct = a1.get('k') == 'ref' and a1.get('d') == md
+        if not direct and a1.get('k') == 'ref':
+            defs_ = M.defs(parse).get(a1.get('d'), [])
+            srcs = [strip_casts(strip_copies(x[1])) for x in defs_ if x[1] is not None]
+            direct = bool(srcs) and all(x.get('k') == 'ref' and x.get('d') == md for x in srcs)
+        embedded = []
+        for e in walk_all_exprs(parse['body']):
+            if e.get('k') == 'call' and e.get('obj') is not None and (e.get('callee') or '').split('::')[-1] in ('insert', 'insert_or_assign', 'emplace', 'try_emplace', 'operator=', 'append', 'operator+=') \
+                    and 'map<' in (strip_casts(e['obj']).get('cty') or '') + (strip_casts(strip_casts(e['obj']).get('obj') or {}).get('cty') or ''):
+                for a in e['args'][1:] if (e.get('callee') or '').split('::')[-1] != 'insert' else e['args']:
+                    # the mapped value (file content) must not be built from the key
+                    vals = [a]
+                    if is_call(strip_casts(strip_copies(a)), 'std::make_pair') or (strip_casts(strip_copies(a)).get('callee') or '').startswith('std::make_pair'):
+                        vals = strip_casts(strip_copies(a))['args'][1:]
+                    for v in vals:
+                        if any(x.get('k') == 'ref' and x.get('d') == md for x in walk_expr(v)) and any(x.get('k') == 'str' for x in walk_expr(v)):
+                            embedded.append(e)
+        if direct:
+            I7.ok('parse: scan(files, main)', 'the main key is passed on unchanged', 'Compiler/src/parse.cpp:%d' % scalls[0].e['loc'][0])
+        elif embedded:
+            I7.violation('parse: scan(files, main)', 'scanning starts at %s, a generated file that names the main file in an include directive' % show(scalls[0].e['args'][1]),
+                         'Compiler/src/parse.cpp:%d' % scalls[0].e['loc'][0])
+        else:
+            I7.unknown('parse: scan(files, main)', 'scanning starts at %s, not at the main key as given' % show(scalls[0].e['args'][1]))
+        I7.check(not embedded, 'parse: file contents', 'no file content is built from the main key', 'a file content is built from the main key (%s): a key containing a quotation mark (or a line break) cannot be '
+                 'named by an include directive, so a present main file is not scanned and a name nobody used is requested' % (show(embedded[0])[:80] if embedded else ''),
+                 'Compiler/src/parse.cpp:%d' % (embedded[0]['loc'][0] if embedded else parse['loc'][1]), witness={'main key': 'my "file".theo'} if embedded else None)
     I6 = rep.rule('C15.I6', 'termination (structural): every iteration reads a token or pops a scanner; a file is pushed only when it is not '
                             'already on the stack, so the depth is bounded by the number of files', floor=1)
     ok6 = False
